@@ -129,6 +129,8 @@ func (c *faultConn) Close() error {
 }
 
 type c01Result struct {
+	outage     bool   // the bulk-upload-with-outage scenario
+	idGroup    []byte // non-nil: base of a group of nearly identical ClientIDs
 	session    uint32
 	upLen      int
 	downLen    int
@@ -164,6 +166,18 @@ func c01GenFault(rng *rand.Rand, first bool) c01Fault {
 	return f
 }
 
+// outage: the first carrier dies in the middle of a bulk upload and no proxy is available for several
+// seconds (KCP keeps retransmitting into the full send queue), then a working one appears
+func c01OutageFault(k int32) c01Fault {
+	switch k {
+	case 1:
+		return c01Fault{upBudget: 1200000, downBudget: -1}
+	case 2:
+		return c01Fault{upBudget: -1, downBudget: -1, dialDelay: 5 * time.Second}
+	}
+	return c01Fault{upBudget: -1, downBudget: -1}
+}
+
 func (f c01Fault) String() string {
 	return fmt.Sprintf("up%d/dn%d/frz%d@%v/delay%v", f.upBudget, f.downBudget, f.freezeAfter, f.freezeFor, f.dialDelay)
 }
@@ -173,6 +187,15 @@ func c01Client(serverAddr string, res *c01Result, seed int64, maxFaults int, dea
 	rng := rand.New(rand.NewSource(seed))
 	var rngMu sync.Mutex
 	clientID := turbotunnel.NewClientID()
+	if res.idGroup != nil {
+		// sessions of one group have ClientIDs that differ in a single byte (the last, or the first)
+		copy(clientID[:], res.idGroup)
+		if res.session%2 == 0 {
+			clientID[7] = byte(res.session)
+		} else {
+			clientID[0] = byte(res.session)
+		}
+	}
 	var nDial int32
 	// one carrier: a WebSocket to the server behind the fault injector (stands for snowflakes.Pop())
 	pop := func() (io.ReadWriteCloser, error) {
@@ -181,6 +204,9 @@ func c01Client(serverAddr string, res *c01Result, seed int64, maxFaults int, dea
 		f := c01GenFault(rng, k == 1)
 		if int(k) > maxFaults { // eventually a working carrier becomes available
 			f = c01Fault{upBudget: -1, downBudget: -1}
+		}
+		if res.outage {
+			f = c01OutageFault(k)
 		}
 		res.faults = append(res.faults, f.String())
 		rngMu.Unlock()
@@ -408,8 +434,14 @@ func c01Serve(conn net.Conn, results *sync.Map, deadline time.Time) {
 	}
 }
 
-func TestVerifC01Stack(t *testing.T) {
-	r := vh.Start("C01")
+func TestVerifC01Stack(t *testing.T) { c01Stack(t, "C01") }
+
+// the same stack run decides the stack-level clauses of C05 (isolation between concurrent sessions,
+// exactly one accepted connection per session, continuity across carriers)
+func TestVerifC05Stack(t *testing.T) { c01Stack(t, "C05") }
+
+func c01Stack(t *testing.T, prop string) {
+	r := vh.Start(prop)
 	defer r.Finish()
 	rng := r.Rng
 
@@ -439,6 +471,8 @@ func TestVerifC01Stack(t *testing.T) {
 	}()
 
 	nSessions := r.N(40, 300)
+	idBase := make([]byte, 8)
+	rng.Read(idBase)
 	var all []*c01Result
 	var wg sync.WaitGroup
 	sem := make(chan struct{}, 12)
@@ -455,6 +489,13 @@ func TestVerifC01Stack(t *testing.T) {
 			res.upLen, res.downLen = rng.Intn(r.N(400000, 6000000)), rng.Intn(2000)
 		}
 		maxFaults := rng.Intn(r.N(8, 20))
+		if s < r.N(2, 6) {
+			res.outage = true
+			res.upLen, res.downLen = 3<<20, 1000
+		}
+		if s%2 == 0 {
+			res.idGroup = idBase
+		}
 		results.Store(res.session, res)
 		all = append(all, res)
 		wg.Add(1)
@@ -490,6 +531,8 @@ func TestVerifC01Stack(t *testing.T) {
 			r.Case("no-token-carrier", fmt.Sprintf("%x", junk), true)
 		}
 	}
+
+	c01PeersReplacement(r)
 
 	for _, res := range all {
 		desc := fmt.Sprintf("session %d up %d down %d carriers %d faults [%s]", res.session, res.upLen, res.downLen, res.carriers, strings.Join(res.faults, " "))
@@ -531,5 +574,50 @@ func TestVerifC01Stack(t *testing.T) {
 				r.OracleFail("remote-addr-of-another-session", desc, res.remoteAddr, "the address of an accepted connection is the client_ip of one of its own carriers, or empty")
 			}
 		}
+	}
+}
+
+
+// c01Tongue hands out peers the way the repository's own tests fake them.
+type c01Tongue struct{ n int }
+
+func (t *c01Tongue) Catch() (*WebRTCPeer, error) {
+	t.n++
+	c := &WebRTCPeer{}
+	c.closed = make(chan struct{})
+	return c, nil
+}
+func (t *c01Tongue) GetMax() int { return 1 }
+
+// After the carrying proxy has died (its peer is closed) the client must be able to collect a
+// replacement: the real Peers with a dialer that always succeeds, capacity 1.
+func c01PeersReplacement(r *vh.Run) {
+	p, err := NewPeers(&c01Tongue{})
+	if err != nil {
+		return
+	}
+	defer p.End()
+	desc := "Peers max=1: collect, pop, peer closes (proxy died), collect"
+	r.Case("peers-replacement", desc, true)
+	if _, err := p.Collect(); err != nil {
+		r.OracleFail("no-replacement-after-proxy-death", desc, "first collect: "+err.Error(), "a fresh client must be able to collect a peer")
+		return
+	}
+	done := make(chan *WebRTCPeer, 1)
+	go func() { done <- p.Pop() }()
+	var cur *WebRTCPeer
+	select {
+	case cur = <-done:
+	case <-time.After(5 * time.Second):
+		r.OracleFail("no-replacement-after-proxy-death", desc, "Pop blocked", "the collected peer must be handed to the data path")
+		return
+	}
+	if cur == nil {
+		return
+	}
+	cur.Close()
+	if _, err := p.Collect(); err != nil {
+		r.OracleFail("no-replacement-after-proxy-death", desc, "collect after the peer died: "+err.Error(),
+			"after the carrying proxy dies a replacement must be collected, otherwise the stream stalls for good although proxies are available")
 	}
 }
